@@ -211,7 +211,22 @@ func (g *c08Gen) probeJSONTypes() {
 	cases = append(cases,
 		c08JSONCase{"bootstrapping.ParametersLiteral", "c2s+s2c+iter", bl1(), nb, func() interface{} { return bl2() }, deep},
 		c08JSONCase{"bootstrapping.ParametersLiteral", "logN12-K12", bl2(), nb, func() interface{} { return bl1() }, deep},
-		c08JSONCase{"bootstrapping.ParametersLiteral", "with-Xs", bl3(), nb, func() interface{} { return bl2() }, deep})
+		c08JSONCase{"bootstrapping.ParametersLiteral", "with-Xs", bl3(), nb, func() interface{} { return bl2() }, deep},
+		// a value without distributions decoded into a receiver that has them
+		c08JSONCase{"bootstrapping.ParametersLiteral", "logN12-K12-into-Xs-Xe", bl2(), nb, func() interface{} {
+			x := bl3()
+			x.Xe = ring.DiscreteGaussian{Sigma: 3.2, Bound: 19}
+			return x
+		}, deep},
+		// pointer fields that point to the zero value are not the same as nil fields (nil = default)
+		c08JSONCase{"bootstrapping.ParametersLiteral", "zero-valued-pointers", &bootstrapping.ParametersLiteral{
+			LogN: utils.Pointy(0), LogSlots: utils.Pointy(0), EvalModLogScale: utils.Pointy(0), EphemeralSecretWeight: utils.Pointy(0),
+			LogMessageRatio: utils.Pointy(0), K: utils.Pointy(0), Mod1Degree: utils.Pointy(0), DoubleAngle: utils.Pointy(0), Mod1InvDegree: utils.Pointy(0),
+			LogP: []int{}, CoeffsToSlotsFactorizationDepthAndLogScales: [][]int{{}}, IterationsParameters: &bootstrapping.IterationsParameters{},
+		}, nb, func() interface{} { return bl1() }, deep},
+		c08JSONCase{"bootstrapping.ParametersLiteral", "all-nil", &bootstrapping.ParametersLiteral{}, nb, func() interface{} {
+			return &bootstrapping.ParametersLiteral{LogN: utils.Pointy(0), K: utils.Pointy(0), DoubleAngle: utils.Pointy(3), Xs: ring.Ternary{H: 1}}
+		}, deep})
 	m1 := func() *mod1.ParametersLiteral {
 		return &mod1.ParametersLiteral{LevelQ: 10, LogScale: 60, Mod1Type: mod1.CosDiscrete, LogMessageRatio: 8, K: 12, Mod1Degree: 30, DoubleAngle: 3}
 	}
@@ -256,6 +271,22 @@ func (g *c08Gen) probeJSONTypes() {
 			detail = "json.Marshal and MarshalBinary differ"
 		}
 		c.Probe("writers_agree", id+" json.Marshal", c08Key(k.goType, "MarshalJSON", "bytes-differ"), detail)
+		if rt := reflect.TypeOf(k.val).Elem(); rt.Kind() == reflect.Struct && strings.Contains(rt.Name(), "Literal") {
+			var keys map[string]json.RawMessage
+			detail := ""
+			if err := json.Unmarshal(b, &keys); err != nil {
+				detail = "the encoding is not a JSON object"
+			} else {
+				for i := 0; i < rt.NumField(); i++ {
+					f := rt.Field(i)
+					if _, ok := keys[f.Name]; f.IsExported() && !ok && !strings.Contains(string(f.Tag), "omitempty") {
+						detail = "field " + f.Name + " of the struct is missing from its JSON encoding"
+						break
+					}
+				}
+			}
+			c.Probe("json_fields", id, c08Key(k.goType, "MarshalJSON", "field-not-serialised"), detail)
+		}
 		for _, mode := range []string{"fresh", "dirty"} {
 			recv := k.fresh()
 			if mode == "dirty" {
@@ -269,6 +300,9 @@ func (g *c08Gen) probeJSONTypes() {
 				detail, sym = "decoded value differs from the original", "value-differs"
 				if mode == "dirty" {
 					sym = "receiver-state-leaks"
+				}
+				if mode == "dirty" && k.goType == "bootstrapping.ParametersLiteral" {
+					sym = "stale-Xs-Xe"
 				}
 			}
 			c.Probe("roundtrip_"+mode, id+" UnmarshalBinary", c08Key(k.goType, "UnmarshalBinary", sym), detail)
